@@ -146,6 +146,21 @@ def _warm_up():
                 reference_run(prog, p)
             except Exception:  # noqa: BLE001
                 pass
+        # a third GEOPHIRES base input: the S-DAC-GT example, whose report prints values with thousands separators.
+        # Only OUTPUT labels that match exactly one line of its report (by the driver's own criterion) are used with it.
+        try:
+            with open(os.path.join(os.environ.get('VERIF_REPO', '/repo'), 'tests', 'examples', 'S-DAC-GT.txt'), encoding='utf-8') as f:
+                txt = f.read() + '\nPrint Output to Console, 0\n'
+            p = os.path.join(d, 'geo3.txt')
+            with open(p, 'w') as f:
+                f.write(txt)
+            rep = reference_run('geo', p).split('\n')
+            labels = [o for o in WL.GEO_OUTPUTS + ['Total Cost of Capture', 'Total Tonnes of CO2 Captured']
+                      if sum(1 for ln in rep if f'  {o}: ' in ln) == 1]
+            if len(labels) >= 6 and 'Total Cost of Capture' in labels:
+                _state['geo3'] = {'text': txt, 'outputs': labels}
+        except Exception:  # noqa: BLE001
+            pass
     finally:
         os.chdir(cwd)
         sys.argv = argv
@@ -201,26 +216,35 @@ def gen_config(cs, tier='quick', force=None):
         c['base'] = force['base']
     table = {'hip': WL.HIP_INPUTS, 'hipold': WL.HIPOLD_INPUTS, 'geo': WL.GEO_INPUTS}[c['program']]
     outs = {'hip': WL.HIP_OUTPUTS, 'hipold': WL.HIPOLD_OUTPUTS, 'geo': WL.GEO_OUTPUTS}[c['program']]
+    if c['program'] == 'geo' and _state.get('geo3') and force.get('base') is None and cs.choose(3, 'geo3') == 2:
+        c['base'] = 2
+        outs = list(reversed(_state['geo3']['outputs']))     # the separator-printed outputs first in the pick order
     c['iter_fail'] = cs.choose(3, 'iter_fail') == 2
     names = list(table)
     nin = 1 + cs.choose(min(4, len(names)), 'nin')
     inputs = []
+    all_discrete = False
     for j_ in range(4):
         if j_ >= nin or not names:
             break
         name = names.pop(cs.choose(len(names), 'in'))
         spec = table[name]
-        if j_ == 0 and spec.get('discrete') and cs.choose(2, 'all_discrete') == 1:
+        has_binom = [x for x in spec['ok'] if x[0] == 'binomial']
+        if j_ == 0 and has_binom and cs.choose(3 if not spec.get('discrete') else 2, 'all_discrete') == 1:
             # settings files with discrete inputs only: sampled combinations repeat
-            names = [n_ for n_ in names if table[n_].get('discrete')]
+            all_discrete = True
+            names = [n_ for n_ in names if any(x[0] == 'binomial' for x in table[n_]['ok'])]
             nin = min(nin, 1 + len(names))
-        if c['iter_fail'] and spec['edge'] and cs.choose(2, 'edge') == 1:
+        if all_discrete and has_binom:
+            d = has_binom[cs.choose(len(has_binom), 'bdist')]
+            edge = False
+        elif c['iter_fail'] and spec['edge'] and cs.choose(2, 'edge') == 1:
             d = spec['edge'][cs.choose(len(spec['edge']), 'edgedist')]
             edge = True
         else:
             d = spec['ok'][cs.choose(len(spec['ok']), 'dist')]
             edge = False
-        inp_ = {'name': name, 'dist': d[0], 'args': list(d[1:]), 'edge': edge, 'discrete': bool(spec.get('discrete'))}
+        inp_ = {'name': name, 'dist': d[0], 'args': list(d[1:]), 'edge': edge, 'discrete': d[0] == 'binomial'}
         # the documented "#" placeholder: "use the value from the base input file as the mean / mode"
         if not edge and d[0] in ('normal', 'triangular') and cs.choose(4, 'hash') == 3:
             bv = _base_value(base_text(c), name)
@@ -337,6 +361,8 @@ def base_text(c):
         return [WL.HIP_BASE, WL.HIP_BASE_2][c['base']]
     if c['program'] == 'hipold':
         return [WL.HIPOLD_BASE, WL.HIPOLD_BASE_2][c['base']]
+    if c['base'] == 2:
+        return _state['geo3']['text']
     return [WL.GEO_BASE, WL.GEO_BASE_2][c['base']]
 
 
@@ -422,7 +448,7 @@ def run_one(payload):
             inp_b = os.path.join(work_b, 'base_input.txt')      # same file name as the first driver's base input
             stg_b = os.path.join(work_b, 'mc_settings.txt')
             out_b = os.path.join(work_b, 'MC_Result.txt')
-            cb = dict(c, base=1 - c['base'])
+            cb = dict(c, base=(1 - c['base']) if c['base'] in (0, 1) else 2)
             # a "#" argument resolves against the second driver's own base input
             cb['inputs'] = []
             for i_ in c['inputs']:
@@ -880,10 +906,20 @@ def analyse(rec, c, k, out_path, inp_path, payload, driver=None):
                   f'char {i_}: {a_[max(0, i_ - 40):i_ + 40]!r} vs {b_[max(0, i_ - 40):i_ + 40]!r}')
         for o, tok in zip(c['outputs'], toks):
             hits = extract_output(report, o)
+            if len(hits) == 0:
+                # the re-simulated report does not print this output at all (some lines are conditional): the row must say so
+                # with the placeholder, never with a value, and never by dropping the column (column_count above)
+                if tok.lower() != 'nan':
+                    V('C14', 'row_not_reproducible', 'value_for_absent_output',
+                      f'line {lineno}: {o} row={tok!r} but re-simulating the recorded samples prints no such line')
+                else:
+                    k.probes['output_absent_in_iteration_report'] += 1
+                    rec['probes'] = dict(k.probes)
+                continue
             if len(hits) != 1:
                 rec.setdefault('skipped_outputs', []).append(o)
                 continue
-            if hits[0] != tok:
+            if hits[0] != tok and hits[0].replace(',', '') != tok.replace(',', ''):
                 V('C14', 'row_not_reproducible', 'value', f'line {lineno}: {o} row={tok!r} re-simulated={hits[0]!r}')
     rec['rows_replayed'] = replayed
     # --- C14: statistics --------------------------------------------------------------
@@ -984,12 +1020,17 @@ def _check_stats(rec, c, pr, out_path, V):
         except ValueError:
             return
     for j, o in enumerate(outputs):
-        xs = sorted(cols[j])
+        has_nan = any(x != x for x in cols[j])
+        xs = sorted(x for x in cols[j] if x == x)       # the summary's statistics ignore missing values ('nan')...
         n = len(xs)
-        mean = math.fsum(xs) / n
-        med = xs[n // 2] if n % 2 else (xs[n // 2 - 1] + xs[n // 2]) / 2
-        std = math.sqrt(math.fsum((x - mean) ** 2 for x in xs) / n)
-        want = {'minimum': xs[0], 'maximum': xs[-1], 'median': med, 'average': mean, 'mean': mean, 'standard deviation': std}
+        if n == 0:
+            want = dict.fromkeys(('minimum', 'maximum', 'median', 'average', 'mean', 'standard deviation'), float('nan'))
+        else:
+            mean = math.fsum(xs) / n
+            med = xs[n // 2] if n % 2 else (xs[n // 2 - 1] + xs[n // 2]) / 2
+            std = math.sqrt(math.fsum((x - mean) ** 2 for x in xs) / n)
+            want = {'minimum': xs[0], 'maximum': xs[-1], 'median': med, 'average': float('nan') if has_nan else mean,   # ...except 'average'
+                    'mean': mean, 'standard deviation': std}
         got = js.get(o)
         if not isinstance(got, dict):
             V('C14', 'stats_mismatch', 'json_entry', f'{o}: {got!r}')
@@ -997,8 +1038,9 @@ def _check_stats(rec, c, pr, out_path, V):
         txt = pr['stats'].get(o, {})
         for sname, w in want.items():
             g = got.get(sname)
-            scale = max(abs(w), abs(xs[0]), abs(xs[-1]), 1e-300)
-            if not isinstance(g, (int, float)) or not (abs(g - w) <= 1e-9 * scale):
+            scale = max(abs(w) if w == w else 0.0, abs(xs[0]) if xs else 0.0, abs(xs[-1]) if xs else 0.0, 1e-300)
+            both_nan = isinstance(g, float) and g != g and w != w
+            if not both_nan and (not isinstance(g, (int, float)) or not (abs(g - w) <= 1e-9 * scale)):
                 V('C14', 'stats_mismatch', sname, f'{o}: {sname} json={g!r} recomputed={w!r} from {n} rows')
             t = txt.get(sname)
             if t is None:
